@@ -151,6 +151,34 @@ def valid_tt3_cmds():
     return [bytes([len(c)]) + c[1:] for c in cmds]
 
 
+def grammar_tt3_cmds(quick):
+    """well-formed Read/Write Without Encryption commands: 1..16 block list elements (2- and 3-byte form), one or two
+    services, with one element that the tag must refuse (block number beyond the memory, service index beyond the
+    list, non-zero access mode, read-only service) at every list position"""
+    idm = bytes.fromhex("02FE010203040506")
+    out = []
+    for code in (0x06, 0x08):
+        for svcs in ((0x0009,), (0x000B,), (0x0009, 0x000B)):
+            sl = bytes([len(svcs)]) + b"".join(struct.pack("<H", x) for x in svcs)
+            for n in range(1, 17):
+                for bad in [None] + list(range(n)):
+                    for kind in ("blk", "svc", "acc") if bad is not None else ("-",):
+                        if quick and bad is not None and kind != "blk" and bad not in (0, 7, 8, n - 1):
+                            continue
+                        for three in (False, True):
+                            els = b""
+                            for i in range(n):
+                                blk, sidx, acc = i % 12, 0, 0
+                                if i == bad:
+                                    blk, sidx, acc = (200, 0, 0) if kind == "blk" else (blk, 5, 0) if kind == "svc" else (blk, 0, 3)
+                                b0 = (0 if three else 0x80) | acc << 4 | sidx
+                                els += bytes([b0, blk]) + (b"\x00" if three else b"")
+                            c = bytes([0, code]) + idm + sl + bytes([n]) + els + (bytes(range(16)) * n if code == 0x08 else b"")
+                            if len(c) < 256:
+                                out.append(bytes([len(c)]) + c[1:])
+    return out
+
+
 def part_a(tier, seed):
     """returns Counter[(entry, cls, exc)] and samples {key: hex}"""
     rnd = random.Random(seed)
@@ -220,6 +248,8 @@ def part_a(tier, seed):
     for d in mutations(cmds, rnd, n_rand // 2):
         feed("tt3emu.process_command", lambda d: emu.process_command(bytearray(d)), d)
     for d in relen(cmds, 0, rnd):
+        feed("tt3emu.process_command", lambda d: emu.process_command(bytearray(d)), d)
+    for d in grammar_tt3_cmds(quick):
         feed("tt3emu.process_command", lambda d: emu.process_command(bytearray(d)), d)
 
     # SNEP / handover request data as handed over by the serve loops (SNEP: at least the 6 byte header)
